@@ -242,7 +242,233 @@ def expr_distributions():
     return out
 
 
+# -- plain attributes as providers ---------------------------------------------------------------
+
+AP = ("sm", "model", "L1", "L3")
+ATTR_INIT = (None, False, True, 0)
+
+
+def attr_scenarios():
+    """(providers, kinds, inits, polarity, attach_at): guard name `ok` provided by a non-empty
+    subset of {machine, model, constructor listener, late listener}, each either by a method or
+    by a plain attribute whose value at attach time is None / False / True / 0."""
+    out = []
+    for r in range(1, len(AP) + 1):
+        for provs in itertools.combinations(AP, r):
+            if provs == ("L3",):
+                continue               # no constructor provider: the definition is invalid
+            for kinds in itertools.product(("method", "attr"), repeat=len(provs)):
+                if "attr" not in kinds:
+                    continue           # all methods: the main space
+                n_attr = kinds.count("attr")
+                for inits in itertools.product(ATTR_INIT, repeat=n_attr):
+                    for pol in ("cond", "unless"):
+                        for attach_at in ((0, 1) if "L3" in provs else (None,)):
+                            out.append((provs, kinds, inits, pol, attach_at))
+    return out
+
+
+def run_attr_scenario(provs, kinds, inits, pol, attach_at, res=None):
+    from statemachine import State, StateMachine
+    from statemachine.factory import StateMachineMetaclass
+    holder = {}
+    it = iter(inits)
+    spec = {}
+    for p, k in zip(provs, kinds):
+        spec[p] = (k, next(it) if k == "attr" else None)
+
+    def member(p):
+        k, init = spec[p]
+        if k == "attr":
+            return init
+
+        def ok(self):
+            return holder[p]
+        return ok
+
+    a, b = State(initial=True), State()
+    ns = {"a": a, "b": b, "go": a.to(b, **{pol: "ok"}), "back": b.to(a)}
+    if "sm" in spec:
+        ns["ok"] = member("sm")
+    cls = StateMachineMetaclass("MA", (StateMachine,), ns)
+    Mod = type("Mod", (), dict({"state": None}, **({"ok": member("model")} if "model" in spec else {})))
+    objs = {}
+    if "model" in spec:
+        objs["model"] = Mod()
+    for lab in ("L1", "L3"):
+        if lab in spec:
+            objs[lab] = type(lab, (), {"ok": member(lab)})()
+    try:
+        sm = cls(objs.get("model"), listeners=[objs["L1"]] if "L1" in objs else None) \
+            if "model" in objs else cls(listeners=[objs["L1"]] if "L1" in objs else None)
+    except Exception as e:   # noqa: BLE001
+        return f"construction raised {type(e).__name__}: {e}", 0
+    objs["sm"] = sm
+    want = pol == "cond"
+    steps = 0
+    attached = [p for p in provs if p != "L3"]
+    for i in range(2):
+        if attach_at == i:
+            sm.add_listener(objs["L3"])
+            attached.append("L3")
+        for bits in itertools.product((True, False), repeat=len(attached)):
+            cur = dict(zip(attached, bits))
+            # unattached late listener: hostile value, it must not matter
+            for p in provs:
+                v = cur.get(p, not want)
+                if spec[p][0] == "attr":
+                    object.__setattr__(objs[p], "ok", v)
+                else:
+                    holder[p] = v
+            sm.current_state_value = "a"
+            try:
+                sm.send("go")
+                fired = sm.current_state_value == "b"
+            except sm.TransitionNotAllowed:
+                fired = False
+            except Exception as e:   # noqa: BLE001
+                return f"send raised {type(e).__name__}: {e}", steps
+            steps += 1
+            exp = all(bool(cur[p]) == want for p in attached)
+            if fired != exp:
+                return (f"{pol}='ok' provided by {dict((p, spec[p]) for p in provs)} "
+                        f"(attribute values are the ones at attach time), attached {attached}, "
+                        f"current values {cur}: expected fires={exp}, observed {fired}"), steps
+    return None, steps
+
+
+# -- one listeners list given to several machines ------------------------------------------------
+
+SHARED_OPS = ("new", "add0", "add1", "send0", "send1", "caller-append")
+
+
+def shared_sequences(depth):
+    out = []
+    for n in range(1, depth + 1):
+        for seq in itertools.product(SHARED_OPS, repeat=n):
+            if "send0" not in seq and "send1" not in seq:
+                continue
+            if seq[-1] not in ("send0", "send1"):
+                continue
+            out.append(("new",) + seq)
+    return out
+
+
+def run_shared(seq, asyn, container="list"):
+    """The application keeps ONE listeners collection and passes it to every machine it builds.
+    Each machine's listeners are the items of the collection when that machine was constructed
+    plus what was attached to that very machine later; the caller's collection is never modified
+    by the library."""
+    from statemachine import State, StateMachine
+    calls = []
+
+    def mk(label):
+        if asyn:
+            async def after_transition(self, machine):
+                calls.append((label, machine.tagname))
+        else:
+            def after_transition(self, machine):
+                calls.append((label, machine.tagname))
+        return type("Lsn", (), {"after_transition": after_transition, "label": label})()
+
+    class MS(StateMachine):
+        a = State(initial=True)
+        b = State()
+        go = a.to(b) | b.to(a)
+
+    base = [mk("base0"), mk("base1")]
+    shared = list(base) if container == "list" else tuple(base)
+    caller_view = list(base)          # what the caller itself put into the collection
+    machines, expected = [], []
+    fresh = 0
+    for i, op in enumerate(seq):
+        if op == "new":
+            if len(machines) >= 2 and False:
+                continue
+            sm = MS(listeners=shared)
+            sm.tagname = f"m{len(machines)}"
+            machines.append(sm)
+            expected.append([x.label for x in caller_view])
+        elif op.startswith("add"):
+            k = int(op[3])
+            if k >= len(machines):
+                continue
+            fresh += 1
+            lsn = mk(f"late{fresh}")
+            try:
+                machines[k].add_listener(lsn)
+            except Exception as e:   # noqa: BLE001
+                return f"step {i} {op}: add_listener raised {type(e).__name__}: {e}"
+            expected[k].append(lsn.label)
+        elif op == "caller-append":
+            if container != "list":
+                continue
+            fresh += 1
+            lsn = mk(f"appended{fresh}")
+            shared.append(lsn)
+            caller_view.append(lsn)
+        else:
+            k = int(op[4])
+            if k >= len(machines):
+                continue
+            del calls[:]
+            try:
+                machines[k].send("go")
+            except Exception as e:   # noqa: BLE001
+                return f"step {i} {op}: raised {type(e).__name__}: {e}"
+            got = [lab for (lab, _m) in calls]
+            who = {m for (_l, m) in calls}
+            if who - {f"m{k}"}:
+                return f"step {i} {op}: listeners were invoked for machine(s) {sorted(who)}"
+            if got != expected[k]:
+                return (f"step {i} {op} after {list(seq[:i])}: machine m{k} notified {got}, "
+                        f"expected {expected[k]} (its constructor listeners + its own late ones)")
+        if [x.label for x in shared] != [x.label for x in caller_view]:
+            return (f"step {i} {op}: the caller's listeners collection was modified by the "
+                    f"library: {[x.label for x in shared]}")
+    return None
+
+
 def worker(block):
+    if block[1] == "shared":
+        res = BlockResult()
+        for seq in shared_sequences(4 if block[0] == "quick" else 5)[block[2]:block[3]]:
+            for asyn in (False, True):
+                for container in ("list", "tuple"):
+                    if container == "tuple" and "caller-append" in seq:
+                        continue
+                    try:
+                        with deadline(30):
+                            msg = run_shared(seq, asyn, container)
+                    except Hang:
+                        msg = "scenario hung"
+                    res.stats["states"] += 1
+                    res.stats["evaluations"] += 1
+                    res.stats["transitions"] += len(seq)
+                    res.hist["shared-collection"] += 1
+                    if msg:
+                        res.violation({"category": "shared-listeners-collection", "asyn": asyn,
+                                       "container": container},
+                                      {"shared": list(seq), "asyn": asyn, "container": container},
+                                      f"[{'async' if asyn else 'sync'}, {container}] {msg}")
+        return res
+    if block[1] == "attr":
+        res = BlockResult()
+        for sc in attr_scenarios()[block[2]:block[3]]:
+            try:
+                with deadline(30):
+                    msg, steps = run_attr_scenario(*sc)
+            except Hang:
+                msg, steps = "scenario hung", 0
+            res.stats["states"] += 1
+            res.stats["evaluations"] += 1
+            res.stats["transitions"] += steps
+            res.hist["attribute-provider"] += 1
+            if msg:
+                res.violation({"category": "attribute-provider",
+                               "construct": msg.startswith("construction")},
+                              {"attr": [list(sc[0]), list(sc[1]), list(sc[2]), sc[3], sc[4]]}, msg)
+        return res
     tier, kind, lo, hi = block
     res = BlockResult()
     ds = (distributions(tier) if kind == "plain" else expr_distributions())[lo:hi]
@@ -324,6 +550,10 @@ def run(tier, seed):
     step = 40 if tier == "quick" else 400
     blocks = [(tier, "plain", i, min(i + step, n)) for i in range(0, n, step)]
     blocks += [(tier, "expr", i, min(i + 6, ne)) for i in range(0, ne, 6)]
+    na = len(attr_scenarios())
+    blocks += [(tier, "attr", i, min(i + 400, na)) for i in range(0, na, 400)]
+    nsh = len(shared_sequences(4 if tier == "quick" else 5))
+    blocks += [(tier, "shared", i, min(i + 200, nsh)) for i in range(0, nsh, 200)]
     total, capped = run_blocks(worker, blocks, seed=seed)
     rep.add_violations(total.violations, total.hist_sig)
     rep.harness_errors = total.stats.get("harness_errors", 0)
@@ -349,6 +579,11 @@ def run(tier, seed):
 
 
 def replay(sc):
+    if "shared" in sc:
+        return run_shared(tuple(sc["shared"]), sc["asyn"], sc["container"])
+    if "attr" in sc:
+        a = sc["attr"]
+        return run_attr_scenario(tuple(a[0]), tuple(a[1]), tuple(a[2]), a[3], a[4])[0]
     dist = {k: frozenset(v) for k, v in sc["dist"].items()}
     vals = {tuple(k): v for k, v in sc["vals"]}
     msg, _ = run_scenario(dist, Cfg(*sc["cfg"]), sc["attach_at"], vals, sc["reattach"],
